@@ -79,6 +79,43 @@ pub fn specs(thorough: bool) -> Vec<BuildSpec> {
             }
         }
     }
+    // (2b) zstd levels above the default need larger decoder windows: keep a few in the quick tier too
+    if !thorough {
+        for l in [20, 21, 22] {
+            for &n in &[0usize, 5, 4096] {
+                for large in [false, true] {
+                    v.push(mk(vec![FileSpec::new("/d/f", content(1, n))], Comp::Zstd(l), large));
+                }
+            }
+        }
+    }
+    // (2c) paths that are related to each other: one a suffix / prefix of the other, same base name in different directories
+    let related: [&[&str]; 5] = [
+        &["/opt/vendor/usr/bin/tool", "/usr/bin/tool"],
+        &["/a/b/f", "/b/f", "/f"],
+        &["/usr/bin/tool", "/usr/bin/tool.d/tool"],
+        &["/d/a", "/d/a.bak", "/d/aa"],
+        &["/x/y", "/x/y/z"],
+    ];
+    for set in related {
+        for c in [Comp::None, Comp::Gzip(6)] {
+            for large in [false, true] {
+                let files: Vec<FileSpec> = set
+                    .iter()
+                    .enumerate()
+                    .map(|(i, p)| {
+                        let mut f = FileSpec::new(p, Content::Bytes(format!("content of {} #{}", p, i).into_bytes()));
+                        if *p == "/x/y" {
+                            f.mode = ModeSpec::Dir(0o755);
+                            f.content = Content::Bytes(vec![]);
+                        }
+                        f
+                    })
+                    .collect();
+                v.push(mk(files, c, large));
+            }
+        }
+    }
     // (3) two and three files, every ordered size tuple over a small set
     let small = [0usize, 1, 3, 4, 5, 4096];
     for c in [Comp::None, Comp::Gzip(6), Comp::Zstd(3), Comp::Xz(1)] {
@@ -263,7 +300,7 @@ pub fn run(ctx: &Ctx) -> i32 {
         "built",
         "A",
         &format!(
-            "{} packages built by the library: 0–3 files; sizes {:?}{} (every residue mod 4) × compressible / incompressible content; name lengths 1–5, 255, 4000; every compression type {} × standard and stripped (large-file, forced by the verif hook) layout; all ordered size tuples over {{0,1,3,4,5,4096}} for 2 and 3 files given out of path order. Oracle: files() yields exactly the given files in path order, bytes identical, length = recorded size, SHA-256 = recorded digest. non-trivial = package with ≥ 1 file",
+            "{} packages built by the library: 0–3 files; sizes {:?}{} (every residue mod 4) × compressible / incompressible content; name lengths 1–5, 255, 4000; every compression type {} × standard and stripped (large-file, forced by the verif hook) layout; all ordered size tuples over {{0,1,3,4,5,4096}} for 2 and 3 files given out of path order; file sets whose paths are suffixes / prefixes of one another; zstd levels 20–22. Oracle: files() yields exactly the given files in path order, bytes identical, length = recorded size, SHA-256 = recorded digest. non-trivial = package with ≥ 1 file",
             specs.len(), SIZES, if ctx.thorough() { ", 1 MiB, 5 MiB" } else { "" }, if ctx.thorough() { "and every documented level (gzip 0–9, xz 0–9, zstd 1–22)" } else { "at three levels each" }
         ),
         a,
